@@ -18,6 +18,7 @@ class OpSite:
         self.ins = self.elts[2:6]
         self.rest = self.elts[6:]
         self.role = None
+        self.opaque = False
 
 
 def simops_init(repo: Repo):
@@ -25,17 +26,42 @@ def simops_init(repo: Repo):
     return mod, mod.func('SimOps.__init__')
 
 
-def op_sites(fn):
+def op_sites(fn, tolerant=False):
+    """The `ops.append((...))` sites. With tolerant=True a site whose columns cannot be told apart statically (operands passed as `*list`, tuples
+    built elsewhere, `ops.extend(...)`) is returned as an *opaque* site (only .lut, if it is the first element of a display; .ins/.rest None):
+    the rules that need columns then rely on the evaluated translation (C01.wiring) or stop with a ModelError."""
     sites = []
     for c in find_all(fn, ast.Call, nested=False):
-        if call_name(c) == 'ops.append' and len(c.args) == 1:
+        if call_name(c) in ('ops.append', 'ops.extend') and len(c.args) == 1:
             t = c.args[0]
+            if call_name(c) == 'ops.extend' and isinstance(t, (ast.GeneratorExp, ast.ListComp)):
+                t = t.elt
+                opaque = True
+            else:
+                opaque = call_name(c) == 'ops.extend'
             if not isinstance(t, ast.Tuple):
+                if tolerant:
+                    sites.append(OpaqueSite(c, None))
+                    continue
                 raise ModelError(f'ops.append argument is not a tuple display: {norm(t)[:80]}')
-            if len(t.elts) < 6:
+            if opaque or len(t.elts) < 6 or any(isinstance(e, ast.Starred) for e in t.elts[:6]):
+                if tolerant:
+                    sites.append(OpaqueSite(c, t))
+                    continue
                 raise ModelError(f'ops.append tuple has {len(t.elts)} < 6 elements')
             sites.append(OpSite(c, t))
     return sites
+
+
+class OpaqueSite:
+    opaque = True
+
+    def __init__(self, call, tup):
+        self.call, self.tup = call, tup
+        self.lut = tup.elts[0] if tup is not None and tup.elts and not isinstance(tup.elts[0], ast.Starred) else None
+        self.out = self.ins = self.rest = None
+        self.elts = tup.elts if tup is not None else []
+        self.role = None
 
 
 def operand_defs(fn):
@@ -196,11 +222,19 @@ def evaluate_translation(init, prefix_rows, cases):
         def mk(seq, base):
             return [None if not c else minieval.NS(index=base + k) for k, c in enumerate(seq)]
         node = minieval.NS(kind=case['kind'], ins=mk(case['ins'], 100), outs=mk(case['outs'], 200), name='n', index=7)
-        env = {nvar: node, 'ops': [], 'a_ctrl': ACtrl(), 'strip_forks': case['strip_forks'], 'kind_prefixes': dict(kp),
-               'self': minieval.NS(ppi_offset=1000, ppo_offset=2000, zero_idx=900, tmp_idx=901, tmp2_idx=902),
-               'interface_dict': ({node: case['s_pos']} if case['s_pos'] is not None else {})}
+        genv = {'kind_prefixes': dict(kp)}
         for nm in luts:
-            env[nm] = nm
+            genv[nm] = nm
+        me = minieval.NS(ppi_offset=1000, ppo_offset=2000, zero_idx=900, tmp_idx=901, tmp2_idx=902)
+        cls = getattr(init, '_parent', None)
+        if isinstance(cls, ast.ClassDef):
+            minieval.bind_class(me, cls, genv)           # helper methods of SimOps the loop may call
+            mod = getattr(cls, '_parent', None)
+            if isinstance(mod, ast.Module):
+                minieval.module_functions(mod, genv)     # and module-level helpers
+        env = dict(genv)
+        env.update({nvar: node, 'ops': [], 'a_ctrl': ACtrl(), 'strip_forks': case['strip_forks'], 'self': me,
+                    'interface_dict': ({node: case['s_pos']} if case['s_pos'] is not None else {})})
         try:
             minieval.run(loop.body, env)
             out.append((case, [tuple(o) for o in env['ops']]))
